@@ -695,7 +695,11 @@ func (s *netSim) offerBlock(v *vnode, b *block.Block, raw []byte) {
 		s.r.violate(pv)
 		return
 	}
-	sim.Wait()
+	if _, more := v.pending[b.Index+1]; !more || s.r.tape.Chance(1, 2) {
+		sim.Wait()
+	} else {
+		s.r.out.Probes["blocks_added_back_to_back"]++
+	}
 	if err != nil {
 		if s.np.CorruptPM > 0 {
 			s.r.out.Probes["corrupted_block_rejected"]++
@@ -721,8 +725,15 @@ func (s *netSim) offerBlock(v *vnode, b *block.Block, raw []byte) {
 		if err := bc.AddBlock(nb); err != nil {
 			break
 		}
-		sim.Wait()
+		// the block queue of a real node adds consecutive blocks in a tight loop: the consensus service may get to see
+		// the first block's event only when the chain is already further (tape-chosen)
+		if s.r.tape.Chance(1, 2) {
+			sim.Wait()
+		} else {
+			s.r.out.Probes["blocks_added_back_to_back"]++
+		}
 	}
+	sim.Wait()
 }
 
 func decodeMsgBlock(raw []byte, srih bool) (*block.Block, error) {
@@ -1162,6 +1173,12 @@ func (s *netSim) syncOffer() {
 				continue
 			}
 			s.r.out.Probes["sync_block_offered"]++
+			// (a node two or more blocks behind gets the block after the next one first: it waits in the node's queue and
+			// is added right behind the next one)
+			if b2, err2 := o.n.BC.GetBlock(o.n.BC.GetHeaderHash(h + 2)); err2 == nil && o.n.BC.BlockHeight() >= h+2 {
+				s.enqueueDirect(o.idx, v.idx, "sync", msgBytes(network.CMDBlock, b2))
+				s.r.out.Probes["sync_two_blocks_offered"]++
+			}
 			s.enqueueDirect(o.idx, v.idx, "sync", msgBytes(network.CMDBlock, b))
 			break
 		}
